@@ -118,6 +118,17 @@ def case_chart_roundtrip(case):
                 v.append(_V(_reject_key(lam, "roundtrip-function"), "N=%d chart %d lambda=%r: GeometryError for points with chart coordinate lambda" % (N, i, lam)))
             if not e <= TAU * scale:
                 v.append(_V("charts/roundtrip/function/%s" % cls, "N=%d chart %d lambda=%r: affine_coords(lambda*projective_coords(a)) differs from a by %.3g" % (N, i, lam, e)))
+        # the same coordinates handed over as nested Python lists / tuples (complex numbers included)
+        def _tup(x):
+            return tuple(_tup(y) for y in x) if isinstance(x, list) else x
+        for pk, packed in (("list", A.tolist()), ("tuple", _tup(A.tolist()))):
+            P2 = np.asarray(projective.projective_coords(packed, chart_index=i))
+            Pt2 = np.asarray(projective.Point(packed, chart_index=i).proj_data)
+            t += 2
+            if P2.shape != want_P.shape or _maxerr(P2, want_P) != 0.0:
+                v.append(_V("charts/projective_coords/%s-input/%s" % (pk, cls), "N=%d chart %d: projective_coords(%s) differs from (a, 1 in slot i): %r vs %r" % (N, i, pk, P2, want_P)))
+            if Pt2.shape != want_P.shape or _maxerr(Pt2, want_P) != 0.0:
+                v.append(_V("charts/Point-chart-slot/%s-input/%s" % (pk, cls), "N=%d chart %d: Point(%s, chart_index=i) differs from (a, 1 in slot i)" % (N, i, pk)))
         # object route
         pt = projective.Point(A.copy(), chart_index=i)
         t += 1
